@@ -32,6 +32,7 @@ pub fn aig_to_cells_techmap(aig: &AigModule, original: &GateModule) -> GateModul
         nets: Vec::new(),
         cells: Vec::new(),
         ffs: original.ffs.clone(),
+        ram_blocks: original.ram_blocks.clone(),
     };
     out.nets = original
         .nets
@@ -41,6 +42,7 @@ pub fn aig_to_cells_techmap(aig: &AigModule, original: &GateModule) -> GateModul
                 NetDriver::Const(b) => NetDriver::Const(b),
                 NetDriver::PortInput => NetDriver::PortInput,
                 NetDriver::FfQ(idx) => NetDriver::FfQ(idx),
+                NetDriver::RamRead(r, p, b) => NetDriver::RamRead(r, p, b),
                 _ => NetDriver::Undriven,
             },
             origin: n.origin,
@@ -162,6 +164,7 @@ pub fn aig_to_cells_techmap(aig: &AigModule, original: &GateModule) -> GateModul
         .filter(|p| matches!(p.dir, PortDir::Output | PortDir::Inout))
         .map(|p| p.nets.len())
         .sum();
+    let mut ram_pins: Vec<NetId> = Vec::new();
     for (i, sink) in aig.sinks.iter().enumerate() {
         let src_net = resolve(&mut out, &mut pos_net, &mut neg_net, sink.edge);
         if i < port_out_count {
@@ -175,11 +178,20 @@ pub fn aig_to_cells_techmap(aig: &AigModule, original: &GateModule) -> GateModul
                 });
                 out.nets[target as usize].driver = NetDriver::Cell(cell_idx);
             }
-        } else {
+        } else if i < port_out_count + out.ffs.len() {
             let ff_idx = i - port_out_count;
             out.ffs[ff_idx].d = src_net;
+        } else {
+            // RAM input pin, in `for_each_ram_input_net` order (see `aigify`).
+            ram_pins.push(src_net);
         }
     }
+    let mut pin = ram_pins.into_iter();
+    out.for_each_ram_input_net_mut(|n| {
+        if let Some(src) = pin.next() {
+            *n = src;
+        }
+    });
     out
 }
 
